@@ -157,6 +157,7 @@ type World struct {
 	idle             bool
 
 	started        bool
+	direct         bool // sequential families: seam calls are served at once, in program order
 	capReason      string
 	bootedInc      int
 	bootOK         map[int]bool
@@ -269,6 +270,10 @@ func (w *World) park(ctx context.Context, kind, ent string, inc int, enabled fun
 		faults:  faults,
 		since:   time.Now(),
 		world:   !strings.HasPrefix(kind, "cl."),
+	}
+	if w.direct {
+		w.mu.Unlock()
+		return decision{}
 	}
 	if w.or != nil && inc == w.inc {
 		w.mu.Unlock()
